@@ -29,6 +29,10 @@ def shards(tier):
                     if hist == 3 and label == "op":
                         out.append(dict(base, op="transfer", sgeo=sg, dgeo=dg, same=same, k=2, steps=1, partition_by="auto", washes=[1], ncand=2, auto_split=False))
                 out.append(dict(base, op="distribute", sgeo="t3x2", dgeo="p2x2", k=1, steps=1))
+                if hist == 3 and label == "op":
+                    for op in ("aspirate", "dispense"):
+                        out.append(dict(base, op=op, sgeo="p2x2", dgeo="t3x2", k=2, steps=1, allow_reject=True))
+                    out.append(dict(base, op="transfer", sgeo="p2x2", dgeo="t3x2", k=2, steps=1, partition_by="auto", washes=[1], ncand=2, allow_reject=True))
                 out.append(dict(base, op="distribute", sgeo="t3x2", dgeo="t3x2", same=True, k=1, steps=1, dsels=[[3], [3, 4]]))
     return out
 
@@ -42,7 +46,7 @@ def engine_opts(p, tier):
 
 
 def witnesses(tier):
-    return {"ok:add", "ok:transfer", "ok:distribute", "moved-nothing", "lvh-label", "same-labware"}
+    return {"ok:add", "ok:transfer", "ok:distribute", "moved-nothing", "lvh-label", "same-labware", "rejected-then-later-op"}
 
 
 def scenario(ctx, p):
@@ -76,11 +80,21 @@ def scenario(ctx, p):
         getattr(lab, p["op"])(wells, vols, label=p["label"]) if p["label"] else getattr(lab, p["op"])(wells, vols)
     else:
         W.p = p
-        wlops.run(ctx, W)
+        if p.get("allow_reject"):
+            # the operation may be rejected (volume violation); the history must stay truthful for what follows
+            ns = common.rt()
+            try:
+                wlops.run(ctx, W)
+            except (ns.VolumeViolationException, ns.InvalidOperationError) as ex:
+                W.rejected = type(ex).__name__
+        else:
+            wlops.run(ctx, W)
     # ---- snapshot semantics: take `volumes` and the newest entries, then run one more operation
     W.snap = {}
+    W.hist_at_end = {}
     for name, lab in W.labs.items():
         W.snap[name] = (lab.volumes, lab.volumes.copy(), lab._history[-1], lab._history[-1].copy(), len(lab._history))
+        W.hist_at_end[name] = (list(lab._history), [h.copy() for h in lab._history], list(lab._labels))
     y = ctx.real("y_after", 0, common.BIG)
     W.after = "ok"
     try:
@@ -105,6 +119,20 @@ def judge(ctx, p, outcome):
         return
     W = ctx.ctx["W"]
     op = p["op"]
+    # every entry that existed when the operation ended (accepted or rejected) is unchanged after the later operation
+    for name, lab in W.labs.items():
+        objs, copies, labels = W.hist_at_end[name]
+        bad = False
+        for i, o in enumerate(objs):
+            if i >= len(lab._history) or lab._history[i] is not o or lab._labels[i] != labels[i]:
+                ctx.violate(f"C11: history entry {i} of {name} was replaced or relabelled by a later operation")
+                bad = True
+                break
+        if not bad and objs:
+            ctx.prove(ctx.all_of([arr_eq(ctx, o, cpy) for o, cpy in zip(objs, copies)]), f"C11: a history entry of {name} changed when a later operation ran")
+    if getattr(W, "rejected", None):
+        ctx.reach("rejected-then-later-op")
+        return
     ctx.reach(f"ok:{op}")
     if p.get("same"):
         ctx.reach("same-labware")
